@@ -89,8 +89,29 @@ pub type OpResult = Result<usize, iroh_docs::sync::InsertError>;
 
 /// Run the ops on a fresh replica; returns the store (replica closed) and the per-op results.
 pub fn build_state(w: &World, ops: &[Op], persistent: bool) -> anyhow::Result<(TestStore, Vec<OpResult>)> {
-    let rt = rt();
     let mut ts = TestStore::new(persistent)?;
+    let results = build_state_on(&mut ts, w, ops, persistent)?;
+    Ok((ts, results))
+}
+
+/// The same document built in a store that held it before: an earlier version of the document
+/// (given by `earlier`) is created, its whole-range fingerprint is computed (as a session would),
+/// the document is removed, and then the document is built as usual.
+pub fn build_state_churned(w: &World, ops: &[Op], persistent: bool, earlier: &[Op]) -> anyhow::Result<(TestStore, Vec<OpResult>)> {
+    let mut ts = TestStore::new(persistent)?;
+    build_state_on(&mut ts, w, earlier, false)?;
+    {
+        let mut replica = ts.s().open_replica(&w.ns_id())?;
+        let _ = replica.sync_initial_message()?;
+    }
+    ts.s().close_replica(w.ns_id());
+    ts.s().remove_replica(&w.ns_id())?;
+    let results = build_state_on(&mut ts, w, ops, persistent)?;
+    Ok((ts, results))
+}
+
+pub fn build_state_on(ts: &mut TestStore, w: &World, ops: &[Op], persistent: bool) -> anyhow::Result<Vec<OpResult>> {
+    let rt = rt();
     let mut results = Vec::new();
     {
         let mut replica = ts.s().new_replica(w.ns.clone())?;
@@ -117,7 +138,7 @@ pub fn build_state(w: &World, ops: &[Op], persistent: bool) -> anyhow::Result<(T
         ts.s().flush()?;
         ts.reopen()?;
     }
-    Ok((ts, results))
+    Ok(results)
 }
 
 /// Run the ops on a fresh replica; returns per-op results and the final content.
